@@ -89,7 +89,7 @@ func init() {
 		Setup:       validateOracle,
 		Timeout:     minutes(10, 90),
 		Cases: func(tier string, seed int64) []fw.Case {
-			return mkCases(nil, "games", 64, seed, pick(tier, 250, 4000))
+			return mkCases(nil, "games", 64, seed, pick(tier, 250, 16000))
 		},
 		Floors: func(string) map[string]int64 {
 			return map[string]int64{
@@ -128,9 +128,9 @@ func init() {
 		Setup:       validateOracle,
 		Timeout:     minutes(10, 90),
 		Cases: func(tier string, seed int64) []fw.Case {
-			l := mkCases(nil, "games", 48, seed, pick(tier, 160, 3000))
-			l = mkCases(l, "sensitivity", 16, seed, pick(tier, 1000, 30000))
-			l = mkCases(l, "newseeds", 8, seed, pick(tier, 60, 2000))
+			l := mkCases(nil, "games", 48, seed, pick(tier, 160, 12000))
+			l = mkCases(l, "sensitivity", 16, seed, pick(tier, 1000, 100000))
+			l = mkCases(l, "newseeds", 8, seed, pick(tier, 60, 6000))
 			return l
 		},
 		Floors: func(string) map[string]int64 {
@@ -233,7 +233,7 @@ func init() {
 		Setup:       validateOracle,
 		Timeout:     minutes(10, 90),
 		Cases: func(tier string, seed int64) []fw.Case {
-			l := mkCases(nil, "ops", 64, seed, pick(tier, 100, 2500))
+			l := mkCases(nil, "ops", 64, seed, pick(tier, 100, 10000))
 			return mkCases(l, "deepwalk", 8, seed, pick(tier, 1, 6))
 		},
 		Floors: func(string) map[string]int64 {
